@@ -9,6 +9,11 @@ and the loop invariant says `abs(root) == wrap(ctx, abs(*final(current)))` and
 Reference parser `trace_spec(lines)`: the first line is the exception if it parses as a throwable; each further line is a frame (added to the
 innermost trace), or `Caused by: ` + throwable (opens a new innermost trace, whatever the rest parses to), or ignored; the result is `None`
 iff the outermost trace has neither exception nor frames.
+Structural round trip (pure lemma `lemma_printed_lines_parse_back`): if the lines have the shape StackTrace's Display lays out for a trace t (`shape`:
+[exception line], one line per frame, then the cause's lines with the `Caused by: ` prefix on its exception line; every line classified as what it
+prints), t has an exception or a frame at the top, and a missing top-level exception's first line is not mistaken for a throwable, then
+`trace_spec(lines) == Some(t)`. The per-line facts (a printed frame / throwable line parses back to its parts) are the single-line lemmas of u16
+over u15's exact parsers; that `str::lines` splits the printed text into these lines, and `trim`, stay hypotheses.
 ASSUMED: `content.lines().peekable()` yields `lines_of(content)` (abstract), `Peekable::{peek,next}`, `str::strip_prefix(&str)` as an abstract
 function, `Option<Box<T>>::as_deref_mut().unwrap()` (the `&mut` to the boxed value; prophecy: what is written through it is what the option
 holds afterwards), `parse_frame` / `parse_throwable` are functions of their argument (`sp_frame` / `sp_throwable`; what they are is unit u15).
@@ -87,6 +92,89 @@ pub proof fn lemma_wrap_push<'a>(ctx: Seq<(Option<Throwable<'a>>, Seq<StackFrame
         assert(c2.subrange(1, c2.len() as int) =~= ctx.subrange(1, ctx.len() as int).push(lvl));
         assert(c2[0] == ctx[0]);
     }
+}
+
+// ======== whole traces: the reference parser reads back the trace whose printed lines it is given (structural round trip) ========
+// `shape(t, ls, i, top)` = the index after the lines that StackTrace's Display lays out for `t` starting at line i:
+//   [the exception line]  (top level: a line that parses as this throwable; cause: `Caused by: ` + such a line, which is not a frame line)
+//   one line per frame, each parsing as that frame
+//   [the lines of the cause]
+// and None if the lines at i do not have this shape. A cause must have an exception (its first line carries the `Caused by: ` prefix).
+pub open spec fn frames_shape<'a>(fr: Seq<StackFrame<'a>>, ls: Seq<&'a str>, i: int, n: int) -> bool
+    decreases n
+{
+    if n <= 0 { true } else { frames_shape(fr, ls, i, n - 1) && 0 <= i + n - 1 < ls.len() && sp_frame(ls[i + n - 1]) == Some(fr[n - 1]) }
+}
+pub open spec fn shape<'a>(t: ATrace<'a>, ls: Seq<&'a str>, i: int, top: bool) -> Option<int>
+    decreases t
+{
+    let head: Option<int> = if top {
+        match t.exc { Some(e) => if 0 <= i < ls.len() && sp_throwable(ls[i]) == Some(e) { Some(i + 1) } else { None }, None => Some(i) }
+    } else {
+        match t.exc {
+            Some(e) => if 0 <= i < ls.len() && sp_frame(ls[i]) is None && sp_strip(ls[i], "Caused by: "@) is Some && sp_throwable(sp_strip(ls[i], "Caused by: "@)->0) == Some(e) { Some(i + 1) } else { None },
+            None => None,
+        }
+    };
+    match head { None => None, Some(j) =>
+        if !frames_shape(t.frames, ls, j, t.frames.len() as int) { None } else {
+            let k = j + t.frames.len();
+            match t.cause { None => Some(k), Some(c) => shape(*c, ls, k, false) }
+        }
+    }
+}
+pub proof fn lemma_frames_parse<'a>(ls: Seq<&'a str>, i: int, exc: Option<Throwable<'a>>, acc: Seq<StackFrame<'a>>, fr: Seq<StackFrame<'a>>, n: int)
+    requires 0 <= i, 0 <= n <= fr.len(), frames_shape(fr, ls, i, fr.len() as int),
+    ensures parse_from(ls, i + n, exc, acc + fr.subrange(0, n)) == parse_from(ls, i, exc, acc),
+    decreases n
+{
+    lemma_frames_shape_prefix(fr, ls, i, fr.len() as int, n);
+    if n > 0 {
+        lemma_frames_parse(ls, i, exc, acc, fr, n - 1);
+        lemma_frames_shape_prefix(fr, ls, i, fr.len() as int, n);
+        assert(0 <= i + n - 1 < ls.len() && sp_frame(ls[i + n - 1]) == Some(fr[n - 1]));
+        assert((acc + fr.subrange(0, n - 1)).push(fr[n - 1]) =~= acc + fr.subrange(0, n));
+    } else {
+        assert(acc + fr.subrange(0, 0) =~= acc);
+    }
+}
+pub proof fn lemma_frames_shape_prefix<'a>(fr: Seq<StackFrame<'a>>, ls: Seq<&'a str>, i: int, n: int, m: int)
+    requires 0 <= m <= n, frames_shape(fr, ls, i, n),
+    ensures frames_shape(fr, ls, i, m), m > 0 ==> 0 <= i + m - 1 < ls.len() && sp_frame(ls[i + m - 1]) == Some(fr[m - 1]),
+    decreases n - m
+{
+    if m < n { lemma_frames_shape_prefix(fr, ls, i, n, m + 1); }
+}
+// the lines of a trace (from line i on, and nothing after them) parse back to the trace
+pub proof fn lemma_shape_parses<'a>(t: ATrace<'a>, ls: Seq<&'a str>, i: int, top: bool)
+    requires 0 <= i, shape(t, ls, i, top) == Some(ls.len() as int),
+    ensures parse_from(ls, (if t.exc is Some { i + 1 } else { i }), t.exc, Seq::empty()) == t,
+    decreases t
+{
+    let j = if t.exc is Some { i + 1 } else { i };
+    let k = j + t.frames.len();
+    lemma_frames_parse(ls, j, t.exc, Seq::empty(), t.frames, t.frames.len() as int);
+    assert(Seq::<StackFrame<'a>>::empty() + t.frames.subrange(0, t.frames.len() as int) =~= t.frames);
+    // from line k on: either the end, or the cause line
+    match t.cause {
+        None => { assert(k == ls.len()); },
+        Some(c) => {
+            assert(shape(*c, ls, k, false) == Some(ls.len() as int));
+            assert(c.exc is Some);
+            assert(0 <= k < ls.len() && sp_frame(ls[k]) is None && sp_strip(ls[k], "Caused by: "@) is Some);
+            lemma_shape_parses(*c, ls, k, false);
+        },
+    }
+}
+// THE STRUCTURAL ROUND TRIP: if the lines are what Display lays out for t, t has an exception or a frame at the top, and (when the exception is
+// absent) the first line is not mistaken for a throwable, then the reference parser returns t
+pub proof fn lemma_printed_lines_parse_back<'a>(t: ATrace<'a>, ls: Seq<&'a str>)
+    requires shape(t, ls, 0, true) == Some(ls.len() as int),
+        t.exc is Some || t.frames.len() > 0,
+        t.exc is None ==> (ls.len() > 0 ==> sp_throwable(ls[0]) is None),
+    ensures /*@L:reference_parser_reads_back_the_trace_whose_lines_it_is_given:C17*/ trace_spec(ls) == Some(t),
+{
+    lemma_shape_parses(t, ls, 0, true);
 }
 """
 
